@@ -29,7 +29,7 @@ PROOF_FAIL_PATTERNS = [
     r'possible bit shift', r'decreases not satisfied', r'unreachable', r'index out of bounds',
     r'cannot show invariant', r'assertion failure', r'loop invariant', r'recommendation not met',
     r'could not show termination', r'failed precondition', r'might panic', r'panic',
-    r'possible truncation', r'underflow', r'overflow',
+    r'possible truncation', r'underflow', r'overflow', r'unable to prove', r'post-?condition',
 ]
 PROOF_FAIL_RE = re.compile('|'.join(PROOF_FAIL_PATTERNS))
 RESOURCE_RE = re.compile(r'[Rr]esource limit|rlimit|timed? ?out|took too long')
